@@ -15,7 +15,7 @@ package main
 //           one, else by which constructor of the library produced it):
 //           syntax | undefinedFilter | filterErr | typeErr | interp | brk | cont | strictUndefined |
 //           undefinedTag | unterminated | notInside | cycleOutside | loopMod | forElse |
-//           includeArg | includeIO | io | other
+//           includeArg | includeIO | includeDepth | io | other
 // <cause-kind> : the `Cause` enum of lean/Liquid/Basic.lean, by the dynamic Go type of Cause():
 //           none | syntax | typeErr | interp | undefinedFilter:<namehex> |
 //           filterErr:<namehex>:<inner cause-kind> | parity | divZero | io | brk | cont | other:<tag>
@@ -161,6 +161,10 @@ func (c engineCfg) canonPath(p string) string {
 	return p
 }
 
+// includeDepthMsg: the first words of the error rendererContext.RenderFile returns when includes are nested
+// deeper than maxIncludeDepth (render/context.go)
+const includeDepthMsg = "include nesting too deep"
+
 var (
 	errBreakMsg    = "break outside a loop"
 	errContinueMsg = "continue outside a loop"
@@ -221,6 +225,11 @@ func causeKind(err error) string {
 	case "for loops accept at most one else clause":
 		return "other:forElse"
 	}
+	if strings.HasPrefix(err.Error(), includeDepthMsg) { // RenderFile at depth >= maxIncludeDepth (a plain fmt.Errorf error)
+		if _, located := err.(liquid.SourceError); !located {
+			return "other:includeDepth"
+		}
+	}
 	if se, ok := err.(liquid.SourceError); ok { // a located error as a cause (nested include)
 		return "other:located:" + causeKind(se.Cause())
 	}
@@ -247,6 +256,8 @@ func errKind(se liquid.SourceError, parsePhase bool) string {
 			return "forElse"
 		case ck == "other:notExist":
 			return "includeIO"
+		case ck == "other:includeDepth":
+			return "includeDepth"
 		}
 		return "other"
 	}
